@@ -5,6 +5,8 @@ package main
 import (
 	"fmt"
 	"go/types"
+	"os"
+	"runtime/debug"
 	"sort"
 	"strings"
 
@@ -141,6 +143,9 @@ func runGuarded(f func()) (err error) {
 	defer func() {
 		if r := recover(); r != nil {
 			if u, ok := r.(unsupported); ok {
+				if os.Getenv("GOVC_DEBUG") != "" {
+					fmt.Fprintf(os.Stderr, "unsupported: %s\n%s\n", string(u), debug.Stack())
+				}
 				err = u
 				return
 			}
